@@ -48,6 +48,7 @@ type File struct {
 	Head         []string        // comment lines before the package clause
 	Aliases      map[*Pkg]string // explicit import alias per imported package ("" = none)
 	BlankImports []*Pkg          // import _ "path" (keeps a package directly imported)
+	Unsafe       bool            // the file imports "unsafe" (first in its import block) and uses it once
 	// filled by the renderer:
 	Lines   []string
 	Imports []*Pkg
@@ -85,6 +86,7 @@ type Node struct {
 	File         *File
 	Start        int // 1-based first line of the node itself (not its Before comments)
 	End          int
+	GroupEnd     int // head of a type ( ... ) group with further specs: last line of the last spec (0 otherwise)
 }
 
 type TypeKind int
@@ -128,6 +130,7 @@ type TypeDecl struct {
 	ImplRefs      []ImplRef  // structured @implements lines (qualifier resolved per file at render time)
 	ExtraDoc      []string   // other doc lines (noise), rendered first
 	Grouped       bool       // rendered as type ( ... ) group
+	JoinPrev      bool       // rendered inside the group of the type declaration right before it (if that one is Grouped)
 	IfaceMethods  []string   // for KIface: method signatures
 	AliasOf       *TypeRef   // if non-nil this is an alias declaration: type Name = X
 	Elem          *TypeRef   // element type of KSliceOf / KMapOf
